@@ -1162,6 +1162,38 @@ class ReplayRun(Run):
     def q_c02(self, where):
         pass
 
+    def q_c17(self, where):
+        pass
+
+    def e_c17(self):
+        pass
+
+    def r_c17(self, v, obs):
+        evs = [e for e in obs["events"] if e[0] in ("complete", "error")]
+        if not evs:
+            return
+        trows = obs.get("stored_tasks", [])
+        prows = obs.get("stored_procs", [])
+        if not self.cfg.keep:
+            if trows:
+                self.found.append(("rows-left:tasks=%d" % len(trows), ""))
+            if prows:
+                self.found.append(("rows-left:proc", ""))
+            acted = [r for r in obs["results"] if r.get("op") == "action"]
+            if acted and acted[-1].get("ok") and v.role == "action-accepted-after-removal":
+                self.found.append(("action-accepted-after-removal", ""))
+        else:
+            if len(prows) != 1:
+                self.found.append(("keep:proc-rows=%d" % len(prows), ""))
+            ending = evs[0][1]["state"]
+            for r in prows:
+                if r["state"] != ending.lower():
+                    self.found.append(("keep:proc-state:%s/%s" % (r["state"], ending), ""))
+            if ending == "Completed":
+                for r in trows:
+                    if r["state"] not in [x.lower() for x in TERMINAL]:
+                        self.found.append(("keep:task-row-not-terminal:%s" % r["state"], ""))
+
     def q_c11(self, where):
         pass
 
@@ -1249,7 +1281,7 @@ def confirm(v, name, cfg, prop, attempts=None):
     tried = []
     for th in flavors:
         for attempt in range(2):
-            sc = replay.scenario_of(model, sc_inputs, script, threads=th)
+            sc = replay.scenario_of(model, sc_inputs, script, threads=th, config=({"keep_processes": bool(cfg.keep)} if prop == "C17" else None))
             out = replay.run(sc)
             if "error" in out:
                 last = out["error"]
